@@ -24,12 +24,25 @@ SchemaPayloads1T == [
       Since(Opt("auth_tag", "AUTHENTICATED_ENCRYPTION_TAG", "bytes"), 14) >>,
   DecryptResponsePayload |-> <<
       Req("unique_identifier", "UNIQUE_IDENTIFIER", "text"),
-      Req("data", "DATA", "bytes") >>
+      Req("data", "DATA", "bytes") >>,
+  \* KMIP 1.3 adds Correlation Value, Init Indicator, Final Indicator and 1.4 Digested Data to the Sign request
+  \* (Data then being required only for single-part operations without Digested Data); SignRequestPayload has no
+  \* constructor argument for them, so they are left out and Data stays required.
+  SignRequestPayload |-> <<
+      Opt("unique_identifier", "UNIQUE_IDENTIFIER", "text"),
+      OptS("cryptographic_parameters", "CRYPTOGRAPHIC_PARAMETERS", "CryptographicParameters"),
+      Req("data", "DATA", "bytes") >>,
+  \* KMIP 1.3 adds Correlation Value (no constructor argument: left out)
+  SignResponsePayload |-> <<
+      Req("unique_identifier", "UNIQUE_IDENTIFIER", "text"),
+      Req("signature_data", "SIGNATURE_DATA", "bytes") >>
 ]
 ClassTagPayloads1 == [
   EncryptRequestPayload |-> "REQUEST_PAYLOAD", EncryptResponsePayload |-> "RESPONSE_PAYLOAD",
-  DecryptRequestPayload |-> "REQUEST_PAYLOAD", DecryptResponsePayload |-> "RESPONSE_PAYLOAD" ]
+  DecryptRequestPayload |-> "REQUEST_PAYLOAD", DecryptResponsePayload |-> "RESPONSE_PAYLOAD",
+  SignRequestPayload |-> "REQUEST_PAYLOAD", SignResponsePayload |-> "RESPONSE_PAYLOAD" ]
 ClassSincePayloads1 == [
   EncryptRequestPayload |-> <<12, 20>>, EncryptResponsePayload |-> <<12, 20>>,
-  DecryptRequestPayload |-> <<12, 20>>, DecryptResponsePayload |-> <<12, 20>> ]
+  DecryptRequestPayload |-> <<12, 20>>, DecryptResponsePayload |-> <<12, 20>>,
+  SignRequestPayload |-> <<12, 20>>, SignResponsePayload |-> <<12, 20>> ]
 =============================================================================
